@@ -31,9 +31,16 @@ RULE = ("histories: random (shape 1-4 D incl. >10 000 voxels, threshold incl. 0 
         "in original, permuted, reversed and grouped order, with None entries, and compared with one analyzer fed everything; 2, 3 and 4 "
         "real processes submitting to one shared analyzer (even / (k,1,0) / one-each splits, thread_safe given or default, the parent "
         "submitting before and after). "
+        "second layer: histories on a stand-in backend with unshared arrays (path without a lock; only_unique_rotations with every rotation "
+        "once / with a repeated rotation), the class docstring's read-back of a rotation at every voxel, analyzers handing memory maps to "
+        "merge(use_memmap=True) with None entries (files watched), merge with a threshold above / below the stores' own thresholds, "
+        "MemmapHandler on real files (whole file / box, float32 / float64 / int32, unknown rotation). "
         "distinct = distinct (kind, shape, threshold-rank, history signature) tuples; histories that never improve a voxel, "
         "single-voxel arrays and empty histories are run but not counted")
 ASSUMPTIONS = [
+    "second layer: the backends with unshared arrays (cupy / jax / mlx) are represented by the numpy backend with `to_sharedarr` / "
+    "`from_sharedarr` replaced by the identity, which is what those backends define; on the only_unique_rotations path tuple(analyzer) is "
+    "read once; MemmapHandler is fed integer-valued arrays (exact in every dtype used) whose box lies inside the file",
     "float scores are NaN-free float32 (the backend's score dtype); the model sees their ranks, which preserves > and =",
     "values submitted as float64 / float16 / integer arrays are exactly representable in float32; no subnormal numbers (the "
     "extension module is built with -ffast-math, which may flush them in this process); thresholds are float32-representable",
@@ -921,6 +928,13 @@ def check_tilings(ctx, cases, smh, do_agree=True):
                     allgood &= ctx.agree("merge(given-order) rotations/table == single analyzer fed the concatenated history", case,
                                          {"rots": _ids(ref[2]) if ref[2].shape == brt.shape else "shape", "table": _table_list(ref[3])},
                                          {"rots": _ids(brt), "table": _table_list(btab)})
+                    # ... and that single analyzer is the model's `run out thr (bigHist ...)` (merge_eq_aggregate_at_once_exact)
+                    hx = [_hex(m) for m in rots]
+                    once = ctx.driver.call("c04.once", thr=rank[float(np.float32(thr))],
+                                           tiles=[{"offset": t["offset"], "shape": t["shape"],
+                                                   "subs": [{"d": _rk(rank, _f32(s["v"])), "k": hx[s["r"]]} for s in t["subs"]]} for t in case["tiles"]])
+                    allgood &= ctx.agree("one analyzer fed every tile's submissions (placed at their offsets) == model run over bigHist", case,
+                                         {"shape": list(bsc.shape), "scores": _rk(rank, bsc), "rots": _ids(brt), "table": _table_list(btab)}, once)
         except _NoResult:
             allgood = False
             continue
@@ -1160,6 +1174,558 @@ def check_model_schedules(ctx, rng, n):
 
 
 # ----------------------------------------------------------------------------------------------
+# second layer: the path without a lock / only_unique_rotations, keys as matrix bytes and reading a rotation back,
+# results behind memory maps on disk, MemmapHandler
+
+import contextlib
+
+
+@contextlib.contextmanager
+def _unshared_backend():
+    """A stand-in for the backends whose arrays are not shared between processes (cupy, jax, mlx: `to_sharedarr` and
+    `from_sharedarr` are the identity).  Everything else is the numpy backend.  With it `MaxScoreOverRotations` takes
+    the path without a lock (`lock_is_nullcontext`) and honours `only_unique_rotations`; no line of analyzer.py is
+    replaced."""
+    from tme.backends import backend as be
+    from tme.backends.npfftw_backend import NumpyFFTWBackend
+
+    class Unshared(NumpyFFTWBackend):
+        def to_sharedarr(self, arr, shared_memory_handler=None):
+            return arr
+
+        def from_sharedarr(self, arr):
+            return arr
+
+    name, args = be._backend_name, dict(be._backend_args)
+    be.add_backend("c04-unshared", Unshared)
+    be.change_backend("c04-unshared")
+    try:
+        yield
+    finally:
+        be.change_backend(name, **args)
+
+
+def gen_deep_history(rng, mode):
+    """mode: nolock | unique | unique-repeats | matkeys"""
+    c = gen_history(rng, min_len=(2 if mode == "unique-repeats" else 0), p_ts=0.08)
+    c["kind"] = "deep-history"
+    c["mode"] = mode
+    c["peeks"] = c["peeks"] if mode == "nolock" else []      # the inverting read of the unique path is taken once
+    c["use_memmap"], c["managed"] = False, True
+    c["unique"] = mode in ("unique", "unique-repeats")
+    if mode in ("nolock", "unique", "unique-repeats"):
+        c["init"] = str(rng.choice(["tuple", "list", "array"]))
+    L = len(c["subs"])
+    if mode == "unique":
+        # what the option promises: every rotation once
+        seen, rots = set(), []
+        for m in _rot_pool(rng, len(c["shape"]), max(L, 1) + 3):
+            if m.tobytes() not in seen:         # the pool holds matrices that differ in dtype only: same bytes for 1 x 1
+                seen.add(m.tobytes())
+                rots.append(m)
+        c["subs"] = c["subs"][:len(rots)]
+        L = len(c["subs"])
+        c["rots"] = [{"dtype": str(m.dtype), "m": m.tolist()} for m in rots]
+        order = [int(x) for x in rng.permutation(len(rots))[:L]]
+        for s_, r in zip(c["subs"], order):
+            s_["r"] = r
+    elif mode == "unique-repeats":
+        j = int(rng.integers(1, L))
+        c["subs"][j]["r"] = c["subs"][int(rng.integers(0, j))]["r"]
+    return c
+
+
+def _words(m):
+    """the matrix as rows of words: hex of the bytes of each entry, in the matrix' own dtype"""
+    m = np.asarray(m)
+    return [[m[i, j].tobytes().hex() for j in range(m.shape[1])] for i in range(m.shape[0])]
+
+
+def _decode_docstring(tab, r, nd):
+    """the class docstring's way to read a rotation back: the key whose value is the identifier, `np.frombuffer(key,
+    dtype).reshape(ndim, ndim)` (the dtype is the one whose item size fits the key)"""
+    found = None
+    for key, value in tab.items():
+        if value != r:
+            continue
+        found = key
+    if found is None:
+        return None
+    isz = len(found) // (nd * nd)
+    dt = {4: np.float32, 8: np.float64, 2: np.float16}.get(isz)
+    if dt is None or isz * nd * nd != len(found):
+        return "bad-key-length:%d" % len(found)
+    return np.frombuffer(found, dt).reshape(nd, nd)
+
+
+def check_deep_histories(ctx, cases, smh, do_agree=True):
+    allgood = True
+    for case in cases:
+        mode = case["mode"]
+        rank = _case_rank(case)
+        rots = _rot_arrays(case)
+        hexes = [_hex(m) for m in rots]
+        nd = len(case["shape"])
+        size = len(case["subs"]) * int(np.prod(case["shape"])) + nd
+        tag = {"nolock": "no-lock path", "unique": "only_unique_rotations", "unique-repeats": "only_unique_rotations",
+               "matkeys": "decode"}[mode]
+        thr_r = rank[float(np.float32(case["thr"]))]
+        subs_req = [{"d": _rk(rank, _f32(s["v"])), "k": hexes[s["r"]]} for s in case["subs"]]
+        try:
+            if mode == "matkeys":
+                (sc, off, rt, tab), _ = run_history_impl(case, smh.handler())
+                path = None
+            else:
+                with _unshared_backend():
+                    an = _new_analyzer(case["shape"], case["thr"], case["thread_safe"], None, unique=case["unique"], cfg=case)
+                    path = (bool(an.lock_is_nullcontext), bool(an._inversion_mapping))
+                    dt = np.dtype(case.get("sub_dtype", "float32"))
+                    peeks, snaps, second = set(case.get("peeks", [])), [], None
+                    for kk, s in enumerate(case["subs"]):
+                        if kk in peeks:
+                            snaps.append((kk, _own(tuple(an))))
+                        a = _layout(np.array(s["v"], dtype=np.float32).reshape(case["shape"]).astype(dt), s.get("lay", "C"))
+                        if not a.flags.writeable or isinstance(a, np.memmap):
+                            a = np.array(a)
+                        an(scores=a, rotation_matrix=_layout(rots[s["r"]], s.get("rlay", "C")))
+                    sc, off, rt, tab = _own(tuple(an))
+                    if case["unique"]:
+                        # outside the property (the scan reads once): a second read inverts the inverted dict again
+                        try:
+                            again = _own(tuple(an))
+                            second = "same" if (np.array_equal(again[0], sc) and np.array_equal(again[2], rt) and list(again[3].items()) == list(tab.items())) else "different"
+                        except Exception as e:
+                            second = type(e).__name__
+        except Exception:
+            ctx.spec(f"{tag}: submissions are accepted", case, False, traceback.format_exc()[-1500:], key=f"{tag}:raised", size=size)
+            allgood = False
+            _cleanup_tmpfiles()
+            continue
+        _cleanup_tmpfiles()
+        impl = {"shape": list(sc.shape), "scores": _rk(rank, sc), "rots": _ids(rt), "table": _table_list(tab)}
+        subs_abs = _submitted(case)
+        distinct_rots = len(set(hexes[s["r"]] for s in case["subs"])) == len(case["subs"])
+        if mode == "matkeys":
+            if do_agree:
+                model = ctx.driver.call("c04.runMat", shape=case["shape"], thr=thr_r, n=nd,
+                                        subs=[{"d": _rk(rank, _f32(s["v"])), "m": _words(rots[s["r"]])} for s in case["subs"]])
+                dec = []
+                for r in _ids(rt):
+                    m = _decode_docstring(tab, r, nd) if isinstance(r, int) else "bad-id"
+                    dec.append(None if m is None else m if isinstance(m, str) else _words(m))
+                allgood &= ctx.agree("decode: tuple(analyzer) and the rotation read back at every voxel == model runMat / decodeRot", case,
+                                     {"scores": impl["scores"], "rots": impl["rots"], "table": impl["table"], "decoded": dec}, model)
+            # the clause itself, on the implementation's output: the matrix read back is, byte for byte, a submitted
+            # matrix whose array holds the reported score at that voxel
+            ok, detail = True, None
+            flat_sc, flat_rt = sc.ravel(), rt.ravel()
+            for v in range(flat_sc.size):
+                r = int(flat_rt[v])
+                if r == -1:
+                    continue
+                m = _decode_docstring(tab, r, nd)
+                if m is None or isinstance(m, str):
+                    ok, detail = False, {"voxel": v, "identifier": r, "reason": "no key carries this identifier" if m is None else m}
+                    break
+                hit = any(rots[s["r"]].dtype == m.dtype and rots[s["r"]].tobytes() == m.tobytes()
+                          and np.float32(s["v"][v]) == flat_sc[v] for s in case["subs"])
+                if not hit:
+                    ok, detail = False, {"voxel": v, "identifier": r, "reason": "the matrix read back was not submitted with this value here"}
+                    break
+            allgood &= ctx.spec("decode: the rotation read back from (rotations, rotation_mapping) attains the reported score", case, ok, detail,
+                                key="decode:rot-attains", size=size)
+            allgood &= spec_store(ctx, "aggregate", case, case["thr"], tuple(case["shape"]), subs_abs, sc, rt, tab, size=size)
+        else:
+            allgood &= ctx.agree(f"{tag}: the stand-in backend takes the path without a lock (and the inversion mapping iff asked)", case,
+                                 list(path), [True, bool(case["unique"])])
+            if do_agree:
+                op = "c04.runInv" if case["unique"] else "c04.runNoLock"
+                model = ctx.driver.call(op, shape=case["shape"], thr=thr_r, subs=subs_req)
+                model = {k: model[k] for k in ("shape", "scores", "rots", "table")}
+                allgood &= ctx.agree(f"{tag}: tuple(analyzer) == model {op[4:]}", case, impl, model)
+                if not case["unique"] or distinct_rots:
+                    # the theorems' content, on this input: same as the lock path
+                    std = ctx.driver.call("c04.run", shape=case["shape"], thr=thr_r, subs=subs_req)
+                    allgood &= ctx.agree(f"{tag}: model == model of the lock path (nolock_path_eq / unique_rotations_eq_standard)", case, model, std)
+            if not case["unique"] or distinct_rots:
+                allgood &= spec_store(ctx, tag, case, case["thr"], tuple(case["shape"]), subs_abs, sc, rt, tab, size=size)
+            else:
+                # a repeated rotation breaks the option's promise: only the score map is claimed (unique_rotations_scores_eq_max)
+                best = np.full(tuple(case["shape"]), np.float32(case["thr"]), dtype=np.float32)
+                for _, a, _k in subs_abs:
+                    best = np.maximum(best, a)
+                allgood &= ctx.spec(f"{tag}: every voxel holds the largest submitted value above the threshold, else the threshold", case,
+                                    sc.shape == best.shape and bool(np.all(sc == best)), key=f"{tag}:max", size=size)
+        if mode != "matkeys":
+            for kk, (psc, poff, prt, ptab) in snaps:
+                # "after any sequence has been submitted": the prefix read on the way, clauses and model
+                allgood &= spec_store(ctx, tag, {"case": case, "prefix": kk}, case["thr"], tuple(case["shape"]), _submitted(case, upto=kk),
+                                      psc, prt, ptab, size=size)
+                if do_agree:
+                    pm = ctx.driver.call("c04.runNoLock", shape=case["shape"], thr=thr_r, subs=subs_req[:kk])
+                    allgood &= ctx.agree(f"{tag}: tuple(analyzer) after a prefix == model runNoLock of the prefix", {"case": case, "prefix": kk},
+                                         {"shape": list(psc.shape), "scores": _rk(rank, psc), "rots": _ids(prt), "table": _table_list(ptab)},
+                                         {k: pm[k] for k in ("shape", "scores", "rots", "table")})
+                ctx.count(f"deep:{mode}:observed-after-a-prefix")
+            if second is not None:
+                ctx.count(f"deep:{mode}:second-read-of-tuple(analyzer)={second}")
+        ctx.count(f"deep:{mode}")
+        ctx.count(f"deep:{mode}:thr={case.get('thr_kind', '?')}")
+        ctx.count(f"deep:{mode}:values={case.get('style', '?')}")
+        ctx.count(f"deep:{mode}:submitted-dtype={case.get('sub_dtype', 'float32')}")
+        ctx.count(f"deep:{mode}:rotation-repeated={not distinct_rots}")
+        ctx.count(f"deep:{mode}:thread_safe={case['thread_safe']}")
+        if case["subs"] and int(np.prod(case["shape"])) > 1 and bool(np.any(rt != -1)):
+            ctx.distinct(("deep", mode, case["shape"], thr_r, [s["r"] for s in case["subs"]],
+                          hash(tuple(tuple(s["v"]) for s in case["subs"])) & 0xFFFFFFFF))
+    return allgood
+
+
+def _open_fds():
+    out = {}
+    for n in os.listdir("/proc/self/fd"):
+        try:
+            out[int(n)] = os.readlink("/proc/self/fd/" + n)
+        except (OSError, ValueError):
+            pass
+    return out
+
+
+def _close_leaked_fds(before):
+    """`generate_tempfile_name` keeps the descriptor `mkstemp` returns open for good (one per temporary file, nothing to do
+    with the property); a long stream of memory-mapped results would run into the limit of open files.  Once every
+    memory map of a case is gone, descriptors that appeared during the case and point into the scratch directory are
+    closed here."""
+    import gc
+    from pv import env as _env
+    gc.collect()
+    root = _env.scratch()
+    n = 0
+    for fd, target in _open_fds().items():
+        if fd not in before and target.startswith(root):
+            try:
+                os.close(fd)
+                n += 1
+            except OSError:
+                pass
+    return n
+
+
+def check_deep_memmap(ctx, cases, smh, do_agree=True):
+    """analyzers of a tiling hand out memory maps (`use_memmap`), `merge(use_memmap=True)` works on the files: compared
+    with the model's file store (`mergeOptMem`), with the in-memory merge of the same data, and the files are watched"""
+    from tme.analyzer import MaxScoreOverRotations
+    allgood = True
+    for case in cases:
+        rots = _rot_arrays(case)
+        keys = [m.tobytes() for m in rots]
+        thr = case["thr"]
+        vals = [float(np.float32(thr))]
+        for t in case["tiles"]:
+            for s in t["subs"]:
+                vals.extend(float(x) for x in _f32(s["v"]))
+        rank = _ranker(vals)
+        nd = len(case["tiles"][0]["shape"])
+        size = sum(len(t["subs"]) * int(np.prod(t["shape"])) for t in case["tiles"]) + 10 * len(case["tiles"])
+        fds_before = _open_fds()
+        an = maps = given = res = None
+        try:
+            handler = smh.handler()
+            maps, subs_abs = [], []
+            for t in case["tiles"]:
+                cfg = {"thr_type": case.get("thr_type", "float"), "off_dtype": t.get("off_dtype", "int64"), "init": t.get("init", "tuple"),
+                       "init_lay": t.get("init_lay", "C"), "use_memmap": True}
+                an = _new_analyzer(t["shape"], thr, False, handler, offset=t["offset"], cfg=cfg)
+                for s in t["subs"]:
+                    a = np.array(s["v"], dtype=np.float32).reshape(t["shape"])
+                    an(scores=a, rotation_matrix=rots[s["r"]])
+                    subs_abs.append((tuple(t["offset"]), a, keys[s["r"]]))
+                maps.append(tuple(an))
+            are_maps = all(isinstance(x, np.memmap) and not x.flags.writeable for st in maps for x in (st[0], st[2]))
+            ctx.spec("memmap: tuple(analyzer) with use_memmap hands out read-only memory maps", case, are_maps, key="memmap:iter-type", size=size)
+            in_files = [str(x.filename) for st in maps for x in (st[0], st[2])]
+            _merge_impl.tmpfiles += in_files
+            ctx.spec("memmap: every array of every result has its own file", case, len(set(in_files)) == len(in_files), key="memmap:iter-files", size=size)
+            mem = [_copy_store(st) for st in maps]
+            before = [open(f, "rb").read() for f in in_files]
+            order = list(range(len(maps)))
+            for h in sorted(set(int(x) for x in case.get("holes", [])), reverse=True):
+                order.insert(min(h, len(order)), -1)
+            given = [None if i < 0 else maps[i] for i in order]
+            given_mem = [None if i < 0 else mem[i] for i in order]
+            if case.get("stores_as") == "list":
+                given = [g if g is None else list(g) for g in given]
+            kw = {"use_memmap": True}
+            if case.get("thr_type", "float") != "default":
+                kw["score_threshold"] = _thr_value(thr, case.get("thr_type", "float"))
+            res = MaxScoreOverRotations.merge(given, **kw)
+            single = len(order) == 1
+            if res is None:
+                ctx.spec("merge: partial results were given, a result comes back", case, False, key="merge:no-result", size=size)
+                allgood = False
+                continue
+            out_files = [str(x.filename) for x in (res[0], res[2]) if isinstance(x, np.memmap)]
+            ctx.spec("memmap: merge(use_memmap=True) hands out memory maps", case, len(out_files) == 2, key="memmap:merge-type", size=size)
+            res_mem = _own(tuple(res))
+            after = [open(f, "rb").read() for f in in_files]
+            ctx.spec("memmap: merge leaves the files of its inputs as they were", case, before == after, key="memmap:inputs-untouched", size=size)
+            fresh = single or not (set(out_files) & set(in_files)) and len(set(out_files)) == len(out_files)
+            ctx.spec("memmap: the merged arrays live in two new files", case, bool(fresh), {"out": out_files, "in": in_files}, key="memmap:fresh-files", size=size)
+            # the same data merged in memory by the same code
+            ref = _merge_impl(given_mem, thr, False, cfg={"thr_type": case.get("thr_type", "float")})
+            same = ref is not None and all(np.array_equal(np.asarray(a), np.asarray(b)) for a, b in zip(ref[:3], res_mem[:3])) \
+                and list(ref[3].items()) == list(res_mem[3].items())
+            ctx.spec("memmap: merge on memory maps gives the result of the in-memory merge", case, bool(same), key="memmap:equals-in-memory", size=size)
+            if do_agree:
+                model = ctx.driver.call("c04.mergeMem", thr=rank[float(np.float32(thr))],
+                                        stores=[None if g is None else _store_req(g, rank) for g in given_mem])
+                impl = {"result": _store_req(res_mem, rank), "inputs_unchanged": before == after,
+                        "new_files": 0 if single else len(set(out_files) - set(in_files))}
+                mdl = {"result": model["result"], "inputs_unchanged": model["inputs_unchanged"],
+                       "new_files": model["files_after"] - model["files_before"]}
+                allgood &= ctx.agree("memmap: merge(use_memmap=True) == model mergeOptMem (result read through the maps, files)", case, impl, mdl)
+            if single:
+                t = case["tiles"][0]
+                loc = [((0,) * nd, a, k) for (_, a, k) in subs_abs]
+                allgood &= spec_store(ctx, "merge", case, thr, tuple(t["shape"]), loc, res_mem[0], res_mem[2], res_mem[3], size=size)
+            else:
+                out_shape = tuple(int(max(t["offset"][ax] + t["shape"][ax] for t in case["tiles"])) for ax in range(nd))
+                allgood &= spec_store(ctx, "merge", case, thr, out_shape, subs_abs, res_mem[0], res_mem[2], res_mem[3], size=size)
+        except Exception:
+            ctx.spec("merge: partial results are accepted", case, False, traceback.format_exc()[-1500:], key="merge:raised", size=size)
+            allgood = False
+            continue
+        finally:
+            _cleanup_tmpfiles()
+            an = maps = given = res = None
+            ctx.count("deep:memmap-merge:descriptors-left-open-by-generate_tempfile_name", _close_leaked_fds(fds_before))
+        ctx.count("deep:memmap-merge")
+        ctx.count(f"deep:memmap-merge:tiles={len(case['tiles'])}")
+        ctx.count(f"deep:memmap-merge:none-entries={len(case.get('holes', []))}")
+        ctx.count(f"deep:memmap-merge:thr={case['thr_kind']}")
+        if len(case["tiles"]) >= 2 and sum(1 for t in case["tiles"] if t["subs"]) >= 2:
+            ctx.distinct(("deep-memmap", [(t["offset"], t["shape"], [s["r"] for s in t["subs"]]) for t in case["tiles"]],
+                          rank[float(np.float32(thr))], hash(json.dumps(case["tiles"])) & 0xFFFFFFFF))
+    return allgood
+
+
+def gen_deep_memmap(rng):
+    c = gen_tiling(rng)
+    c["kind"] = "deep-memmap"
+    c["holes"] = [int(x) for x in rng.integers(0, len(c["tiles"]) + 1, size=int(rng.choice([0, 0, 1, 2])))]
+    return c
+
+
+def gen_deep_merge_thr(rng):
+    """stores built with thresholds of their own, merged with yet another one: not below any of them ("raise": the
+    property holds for the merge threshold, merge_threshold_raise) or below some ("lower": outside the property, the
+    model must still follow the code through `lookup_table[-1]`)"""
+    c = gen_tiling(rng)
+    c["kind"] = "deep-merge-thr"
+    vals = sorted(set(float(np.float32(x)) for t in c["tiles"] for s_ in t["subs"] for x in s_["v"] if np.isfinite(x)) | {0.0, -1.0, 1.0})
+    for t in c["tiles"]:
+        t["thr"] = float(rng.choice(vals))
+    top = max(t["thr"] for t in c["tiles"])
+    c["direction"] = str(rng.choice(["raise", "raise", "lower"]))
+    if c["direction"] == "raise":
+        c["thr"] = float(rng.choice([v for v in vals if v >= top] + [top]))
+    else:
+        lower = [v for v in vals if v < top]
+        c["thr"] = float(rng.choice(lower)) if lower else float(np.float32(top - 1.0))
+    c["holes"] = [0] if len(c["tiles"]) == 1 else [int(x) for x in rng.integers(0, len(c["tiles"]) + 1, size=int(rng.choice([0, 0, 1])))]
+    return c
+
+
+def check_deep_merge_thr(ctx, cases, smh, do_agree=True):
+    allgood = True
+    for case in cases:
+        rots = _rot_arrays(case)
+        keys = [m.tobytes() for m in rots]
+        thr2 = case["thr"]
+        vals = [float(np.float32(thr2))] + [float(np.float32(t["thr"])) for t in case["tiles"]]
+        for t in case["tiles"]:
+            for s in t["subs"]:
+                vals.extend(float(x) for x in _f32(s["v"]))
+        rank = _ranker(vals)
+        nd = len(case["tiles"][0]["shape"])
+        size = sum(len(t["subs"]) * int(np.prod(t["shape"])) for t in case["tiles"]) + 10 * len(case["tiles"])
+        try:
+            handler = smh.handler()
+            stores, subs_abs = [], []
+            for t in case["tiles"]:
+                an = _new_analyzer(t["shape"], t["thr"], False, handler, offset=t["offset"], cfg={"thr_type": "float"})
+                for s in t["subs"]:
+                    a = np.array(s["v"], dtype=np.float32).reshape(t["shape"])
+                    an(scores=a, rotation_matrix=rots[s["r"]])
+                    subs_abs.append((tuple(t["offset"]), a, keys[s["r"]]))
+                stores.append(_own(tuple(an)))
+            order = list(range(len(stores)))
+            for h in sorted(set(int(x) for x in case.get("holes", [])), reverse=True):
+                order.insert(min(h, len(order)), -1)
+            given = [None if i < 0 else stores[i] for i in order]
+            res = _merge_impl(given, thr2, False, cfg={"thr_type": "float"})
+            if res is None:
+                ctx.spec("merge: partial results were given, a result comes back", case, False, key="merge:no-result", size=size)
+                allgood = False
+                continue
+            if do_agree:
+                model = ctx.driver.call("c04.merge", thr=rank[float(np.float32(thr2))],
+                                        stores=[None if g is None else _store_req(g, rank) for g in given])
+                allgood &= ctx.agree(f"merge(score_threshold {case['direction']}d) == model merge", case, _store_req(res, rank), model)
+            if case["direction"] == "raise":
+                out_shape = tuple(int(max(t["offset"][ax] + t["shape"][ax] for t in case["tiles"])) for ax in range(nd))
+                allgood &= spec_store(ctx, "merge", case, thr2, out_shape, subs_abs, res[0], res[2], res[3], size=size)
+        except Exception:
+            ctx.spec("merge: partial results are accepted", case, False, traceback.format_exc()[-1500:], key="merge:raised", size=size)
+            allgood = False
+            continue
+        finally:
+            _cleanup_tmpfiles()
+        ctx.count(f"deep:merge-threshold={case['direction']}")
+        ctx.count(f"deep:merge-threshold:tiles={len(case['tiles'])}")
+        if sum(1 for t in case["tiles"] if t["subs"]) >= 2:
+            ctx.distinct(("deep-merge-thr", case["direction"], [(t["offset"], t["shape"], rank[float(np.float32(t["thr"]))], [s["r"] for s in t["subs"]]) for t in case["tiles"]],
+                          rank[float(np.float32(thr2))], hash(json.dumps(case["tiles"])) & 0xFFFFFFFF))
+    return allgood
+
+
+def _rot_string(m):
+    return "_".join(np.asarray(m).ravel().astype(str))
+
+
+def gen_memmap_handler(rng):
+    nd = int(rng.choice([1, 2, 3]))
+    fshape = [int(x) for x in rng.integers(1, 6, size=nd)]
+    start = [int(rng.integers(0, g)) for g in fshape]
+    box = [int(rng.integers(1, g - o + 1)) for g, o in zip(fshape, start)]
+    whole = bool(rng.random() < 0.25)
+    if whole:
+        start, box = [0] * nd, list(fshape)
+    seen, rots = set(), []
+    for m in _rot_pool(rng, nd, int(rng.integers(1, 4)) + 2):
+        if _rot_string(m) not in seen:          # the handler names rotations by the decimal strings of their entries
+            seen.add(_rot_string(m))
+            rots.append(m)
+    rots = rots[:max(1, len(rots) - 2)]
+    nrot = len(rots)
+    nfile = int(np.prod(fshape))
+    return {"kind": "memmap-handler", "shape": fshape, "start": start, "box": box, "whole": whole,
+            "dtype": str(rng.choice(["float32", "float64", "int32"])),
+            "rots": [{"dtype": str(m.dtype), "m": m.tolist()} for m in rots],
+            "init": [[int(x) for x in rng.integers(-5, 6, size=nfile)] for _ in range(nrot)],
+            "unknown": bool(rng.random() < 0.08),
+            "subs": [{"r": int(rng.integers(nrot)), "v": [int(x) for x in rng.integers(-9, 10, size=int(np.prod(box)))]}
+                     for _ in range(int(rng.integers(0, 7)))]}
+
+
+def check_memmap_handler(ctx, cases, do_agree=True):
+    """`MemmapHandler`: one file per rotation, a submission is added to a box of the file of its rotation"""
+    from tme.analyzer import MemmapHandler
+    from pv import env as _env
+    allgood = True
+    for case in cases:
+        rots = _rot_arrays(case)
+        names = [_rot_string(m) for m in rots]
+        if len(set(names)) < len(names):
+            ctx.count("deep:memmap-handler:rotation-strings-collide-skipped")
+            continue
+        dt = np.dtype(case["dtype"])
+        fshape = tuple(case["shape"])
+        files = []
+        try:
+            for j, init in enumerate(case["init"]):
+                check_memmap_handler.n += 1
+                fn = os.path.join(_env.scratch(), "c04_mh_%d_%d.bin" % (os.getpid(), check_memmap_handler.n))
+                np.array(init, dtype=dt).reshape(fshape).tofile(fn)
+                files.append(fn)
+            _merge_impl.tmpfiles += files
+            known = len(rots) - 1 if case.get("unknown") and len(rots) > 1 else len(rots)
+            trans = {names[j]: files[j] for j in range(known)}
+            box = tuple(slice(o, o + b) for o, b in zip(case["start"], case["box"]))
+            mh = MemmapHandler(path_translation=trans, shape=fshape, dtype=dt, indices=None if case["whole"] else box)
+            if case["whole"] and len(case["subs"]) % 2:
+                mh.update_indices(box)
+            outcome = "ok"
+            for s in case["subs"]:
+                try:
+                    mh(np.array(s["v"], dtype=dt).reshape(case["box"]), rots[s["r"]])
+                except KeyError:
+                    outcome = "KeyError"
+                    break
+            got = outcome if outcome != "ok" else [[int(x) for x in np.fromfile(f, dtype=dt)] for f in files[:known]]
+            exact = outcome != "ok" or all(np.all(np.fromfile(f, dtype=dt) == np.array(g)) for f, g in zip(files, got))
+            if do_agree:
+                model = ctx.driver.call("c04.memmapHandler", shape=list(fshape), starts=case["start"],
+                                        files=[case["init"][j] for j in range(known)],
+                                        paths=[[names[j], j] for j in range(known)],
+                                        subs=[{"shape": case["box"], "d": s["v"], "k": names[s["r"]]} for s in case["subs"]])
+                allgood &= ctx.agree("MemmapHandler: files after the submissions == model memmapHandlerRun", case, got, model)
+            # the clause: a file holds what it held plus everything submitted for its rotation, on the box; nothing else moves
+            if outcome == "ok":
+                want = [np.array(case["init"][j], dtype=np.int64).reshape(fshape) for j in range(known)]
+                for s in case["subs"]:
+                    want[s["r"]][box] += np.array(s["v"], dtype=np.int64).reshape(case["box"])
+                ok = exact and all(w.ravel().tolist() == g for w, g in zip(want, got))
+                allgood &= ctx.spec("MemmapHandler: every file holds its initial content plus the arrays submitted for its rotation", case, bool(ok),
+                                    key="memmap-handler:sum", size=len(case["subs"]) * int(np.prod(fshape)))
+            ctx.count("deep:memmap-handler")
+            ctx.count(f"deep:memmap-handler:outcome={outcome}")
+            ctx.count(f"deep:memmap-handler:whole-file={case['whole']}")
+            if len(case["subs"]) >= 2 and outcome == "ok":
+                ctx.distinct(("memmap-handler", case["shape"], case["start"], case["box"], [s["r"] for s in case["subs"]],
+                              hash(json.dumps(case["subs"])) & 0xFFFFFFFF))
+        except Exception:
+            ctx.spec("MemmapHandler: submissions are accepted", case, False, traceback.format_exc()[-1500:], key="memmap-handler:raised")
+            allgood = False
+        finally:
+            _cleanup_tmpfiles()
+    return allgood
+
+
+check_memmap_handler.n = 0
+
+
+def check_translations_aggregator(ctx):
+    """`_MaxScoreOverTranslations` cannot be run on this tree: its `__call__` reads `self.observed_rotations`, which no
+    constructor sets, and calls `be.from_sharedarr` with keywords the backends do not take.  Recorded, not modelled."""
+    from tme.analyzer import _MaxScoreOverTranslations
+    try:
+        t = _MaxScoreOverTranslations(shape=(2,), thread_safe=False)
+        segs = _segments(t)
+        try:
+            t(np.zeros((2, 3, 3, 3), dtype=np.float32), np.eye(3), template_shape=(2, 2, 2, 2))
+            outcome = "runs"
+        except Exception as e:
+            outcome = type(e).__name__
+        finally:
+            _release(segs)
+    except Exception as e:
+        outcome = "constructor:" + type(e).__name__
+    ctx.count(f"deep:_MaxScoreOverTranslations.__call__={outcome}")
+    ctx.note("_MaxScoreOverTranslations.__call__ on this tree: %s (not modelled: nothing to observe)" % outcome)
+
+
+def run_deep(ctx, smh, rng, do_agree=True):
+    _close_leaked_fds({})       # what the earlier streams' temporary files left behind (their memory maps are gone)
+    modes = ["nolock", "unique", "unique-repeats", "matkeys"]
+    n = ctx.budget(160, 3000)
+    cases = [gen_deep_history(rng, modes[i % 4] if i % 8 < 7 else "matkeys") for i in range(n)]
+    # deliberate corners: ties between different rotations, a threshold above everything, negative scores only
+    for mode in modes:
+        c = gen_deep_history(rng, mode)
+        if len(c["subs"]) >= 2:
+            c["subs"][1]["v"] = list(c["subs"][0]["v"])
+        cases.append(c)
+    ok = check_deep_histories(ctx, cases, smh, do_agree)
+    ctx.sample({k: v for k, v in cases[0].items() if k != "rots"})
+    ok &= check_deep_memmap(ctx, [gen_deep_memmap(rng) for _ in range(ctx.budget(40, 500))], smh, do_agree)
+    ok &= check_deep_merge_thr(ctx, [gen_deep_merge_thr(rng) for _ in range(ctx.budget(60, 800))], smh, do_agree)
+    ok &= check_memmap_handler(ctx, [gen_memmap_handler(rng) for _ in range(ctx.budget(60, 1000))], do_agree)
+    check_translations_aggregator(ctx)
+    return ok
+
+
+# ----------------------------------------------------------------------------------------------
 # obligations read from the source under test
 
 def extract(ctx):
@@ -1191,6 +1757,23 @@ def extract(ctx):
     ctx.obligation("constructor defaults: score_threshold=0, thread_safe=True",
                    sig.parameters["score_threshold"].default == 0 and sig.parameters["thread_safe"].default is True,
                    {k: repr(v.default) for k, v in sig.parameters.items() if k in ("score_threshold", "thread_safe")})
+    # second layer: the stand-in backend is what the backends with unshared arrays define, and the analyzer decides on that
+    def _returns_its_argument(fn):
+        t = ast.parse(textwrap.dedent(inspect.getsource(fn)))
+        f = t.body[0]
+        body = [n for n in f.body if not (isinstance(n, ast.Expr) and isinstance(getattr(n, "value", None), ast.Constant))]
+        names = [a.arg for a in f.args.args if a.arg != "self"]
+        return len(body) == 1 and isinstance(body[0], ast.Return) and isinstance(body[0].value, ast.Name) and names[:1] == [body[0].value.id]
+    from tme.backends.cupy_backend import CupyBackend
+    from tme.backends.jax_backend import JaxBackend
+    from tme.backends.mlx_backend import MLXBackend
+    ident = {c.__name__: [_returns_its_argument(c.to_sharedarr), _returns_its_argument(c.from_sharedarr)] for c in (CupyBackend, JaxBackend, MLXBackend)}
+    ctx.obligation("cupy / jax / mlx backends: to_sharedarr and from_sharedarr return their argument (the stand-in backend of the second layer)",
+                   all(all(v) for v in ident.values()), ident)
+    isrc = inspect.getsource(MaxScoreOverRotations.__init__)
+    ctx.obligation("`lock_is_nullcontext` is decided by the type of the shared scores, `_inversion_mapping` = that and only_unique_rotations",
+                   "self.lock_is_nullcontext = isinstance(self.scores, type(be.zeros((1))))" in isrc
+                   and "self._inversion_mapping = self.lock_is_nullcontext and only_unique_rotations" in isrc, None)
     ctx.obligation("backend integer / float dtypes are int32 / float32 (identifiers fit, ranks are exact)",
                    be._int_dtype is np.int32 and be._float_dtype is np.float32, {"int": str(be._int_dtype), "float": str(be._float_dtype)})
 
@@ -1276,6 +1859,9 @@ def run(ctx):
         check_concurrent(ctx, ccs, smh, pool)
         ctx.sample({"kind": "concurrent", "nproc": ccs[0]["nproc"], "shape": ccs[0]["shape"], "rounds": len(ccs[0]["work"][0]),
                     "delay_s": ccs[0]["delay"]})
+
+        # 6. second layer: no-lock path / only_unique_rotations, reading rotations back, memory maps on disk, MemmapHandler
+        run_deep(ctx, smh, ctx.rng("deep"))
     finally:
         if pool:
             pool.close()
@@ -1305,6 +1891,14 @@ def _dispatch(ctx, case, smh, pool, do_agree=True):
         return check_histories(ctx, [case], smh, do_agree)
     if kind == "tiling":
         return check_tilings(ctx, [case], smh, do_agree)
+    if kind == "deep-history":
+        return check_deep_histories(ctx, [case], smh, do_agree)
+    if kind == "deep-memmap":
+        return check_deep_memmap(ctx, [case], smh, do_agree)
+    if kind == "memmap-handler":
+        return check_memmap_handler(ctx, [case], do_agree)
+    if kind == "deep-merge-thr":
+        return check_deep_merge_thr(ctx, [case], smh, do_agree)
     if kind == "concurrent":
         own = pool is None
         pool = pool or _Pool(case["nproc"])
@@ -1341,6 +1935,7 @@ def search(ctx):
         check_tilings(ctx, [gen_tiling(rng, wide=True) for _ in range(n // 2)] + [gen_tiling(rng, manyrot=True) for _ in range(3)], smh, do_agree=False)
         check_histories(ctx, [gen_history(rng, nd=1, shape=[3], manyrot=300, p_ts=0.0), gen_synth(rng, 33500), gen_synth(rng, 70000)]
                         + [gen_history(rng, nd=nd, big=True, min_len=1, p_ts=0.0) for nd in (1, 2, 3)], smh, do_agree=False)
+        run_deep(ctx, smh, rng, do_agree=False)
         if not ctx.spec_failures:
             pool = _Pool(4)
             ccs = [gen_concurrent(rng, 2 + (i % 3), slow=True, split=("even", "even", "uneven", "one-each")[i % 4]) for i in range(ctx.budget(12, 40))]
